@@ -10,6 +10,9 @@ FILES = ["crates/parol_runtime/src/lr_parser/parser_types.rs", "crates/parol_run
          "crates/parol/src/transformation/lr_augmentation.rs"]
 
 
+_seen_tables = set()
+
+
 def oracle_req(case, reply):
     w = case.split()
     r = reply.split()
@@ -17,6 +20,12 @@ def oracle_req(case, reply):
         return None
     reqs = []
     conflicts = int(w[14]) if len(w) > 14 else 0
+    key = " ".join(w[1:4]) + " " + w[13]
+    if conflicts == 0 and key not in _seen_tables:
+        # C03b: hypothesis of lr_complete / lr_accepts_iff, evaluated once per real table: every table
+        # built without resolved conflicts must pass the verified completeness validator
+        _seen_tables.add(key)
+        reqs.append("lr-cert-ok " + key)
     if w[5] == "-":
         if conflicts == 0:
             # no depth limit, no resolved conflict: the verdict must equal membership in the original language
@@ -41,6 +50,7 @@ SPEC = {
     "prop": "lrrun",
     "gen_extra": ["plain"],
     "mod": "ParolModel.Props.C03",
+    "more_mods": ["ParolModel.Props.C03b"],
     "files": FILES,
     "oracle_req": oracle_req,
     "nontrivial": nontrivial,
@@ -51,17 +61,17 @@ SPEC = {
             "conflicts are included (soundness must still hold, C04); non-trivial = at least two tokens; distinct = distinct request lines",
     "assumptions": [
         "the Lean function `lrRun` mirrors LRParser::parse_into (shift / reduce with pop_n over interleaved skip tokens / accept reducing the first start production / build_tree); agreement is observed on the explored runs",
-        "completeness (every sentence accepted) is NOT a theorem (def LRComplete): it needs the correctness of lalry's LALR(1) construction; it is covered per explored grammar by the verified membership oracle",
+        "completeness (every sentence accepted) is a theorem for every table that passes the verified validator lrCompleteCertB (lr_complete, Props/C03b.lean; translation validation, no assumption about lalry); that parol's conflict-free tables pass the validator is evaluated on every real table of the check (oracle lr-cert-ok), not proved for all grammars",
         "that table construction completes without crashing is observed (catch_unwind) on the explored conflict-free grammars; lalry panics on some conflicting grammars (finding F13, C26)",
     ],
 }
 
 CLAIM = {
     "category": "proof",
-    "text": "Theorem lr_sound: for EVERY table that passes the verified checker lrTableValid (accessing symbols consistent; state 0 without incoming transitions; every Reduce(A,p) only in states all of whose backward paths spell rhs(p), lhs(p)=A; Accept only on EOI in states whose backward paths spell the first start production and end in state 0; no shift on EOI) and EVERY token sequence, success of the model of LRParser::parse_into implies membership in the language of the transformed grammar — no assumption about lalry. The checker is evaluated on every real table. The model is tied to the code by exact differential runs (result, action trace with arguments, tree events, comments). 'Exactly when' (completeness), equality with the ORIGINAL grammar's language, and the tree/reduction clauses are decided on the real output per explored grammar by the verified membership recogniser and the executable statement treeCheck (inner node = production with its rhs as significant children in order; reductions once each in post-order = reverse rightmost derivation; root = start symbol; leaves = all tokens).",
+    "text": "Theorem lr_sound: for EVERY table that passes the verified checker lrTableValid (accessing symbols consistent; state 0 without incoming transitions; every Reduce(A,p) only in states all of whose backward paths spell rhs(p), lhs(p)=A; Accept only on EOI in states whose backward paths spell the first start production and end in state 0; no shift on EOI) and EVERY token sequence, success of the model of LRParser::parse_into implies membership in the language of the transformed grammar — no assumption about lalry. The checker is evaluated on every real table. Theorem lr_complete (Props/C03b, translation validation in the style of Jourdan/Pottier/Leroy): for EVERY table that passes the verified validator lrCompleteCertB (LR(1) item sets computed as least fixpoint from state 0 along the table's own transitions, then verified: start items in state 0, closure w.r.t. closed nullable/FIRST tables, every item's next symbol has the matching shift/goto with the advanced item in the target, every completed item's lookaheads carry Reduce by that rule or Accept; start symbol isolated) every sentence is accepted, whatever the skip tokens and options without depth limit; lr_accepts_iff / lr_accepts_iff_bound (with the termination checker: the run with the explicit fuel lrSummFuel decides membership); exLRbad_incomplete shows a valid table that fails the validator and rejects a sentence. The validator is evaluated on every conflict-free real table (all pass). The model is tied to the code by exact differential runs (result, action trace with arguments, tree events, comments). Equality with the ORIGINAL grammar's language (through parol's transformations), and the tree/reduction clauses are decided on the real output per explored grammar by the verified membership recogniser and the executable statement treeCheck (inner node = production with its rhs as significant children in order; reductions once each in post-order = reverse rightmost derivation; root = start symbol; leaves = all tokens).",
     "design_ref": "DESIGN.md §6 C03",
-    "note": "Trusted: Lean kernel; faithfulness of the hand-written model as observed by the differential run; harness and orchestrator. Not proved: completeness of LR parsing (correctness of the LALR construction), termination. Cyclic grammars are excluded from this generator because the real parser does not terminate on them (F24, reported under C19).",
-    "technique": "Lean 4 proof (soundness for all valid tables and inputs) over hand-written model + differential correspondence check + verified table checker and membership oracle on real output",
+    "note": "Trusted: Lean kernel; faithfulness of the hand-written model as observed by the differential run; harness and orchestrator. Not proved: that lalry's construction always yields tables passing the validators (lalry is external; validated per table). Cyclic grammars are excluded from this generator because the real parser does not terminate on them (F24, reported under C19).",
+    "technique": "Lean 4 proof (soundness and completeness for all validated tables and all inputs; translation validation of the real LALR(1) tables) over hand-written model + differential correspondence check + verified table checker and membership oracle on real output",
 }
 
 
